@@ -12,6 +12,7 @@ from ..spy import BatchRecorder, optimiser_spy
 from ..stepcheck import StepChecker
 
 QUICK_SCALE = 3  # quick budgets below are multiplied by this (kept at about half a minute on 8 processes)
+THOROUGH_SCALE = 6  # thorough budgets below are multiplied by this (about ten minutes on 16 processes)
 
 RULE = ("real fits of every gradient-trained family (tiny shapes: n<=12, d<=4, hidden<=4, K<=3, n_cuts<=2, max_iter<=3, "
         "learning rates up to 0.5, any batch size) with sklearn's BaseOptimizer.update_params wrapped; at each observed "
